@@ -451,6 +451,45 @@ func genC02(repo string) (string, error) {
 	}
 	fmt.Fprintf(&b, "def formatValueAndDecorateBody : List String := %s\n", leanStrList(fv))
 
+	// layout: everything the formatter writes *because of* pretty-printing.  Every statement
+	// guarded by `f.tab > 0`, the value given to `newline`, the body of `indent`, and every
+	// expression that mentions `newline` — rendered; the Lean side checks that they only ever
+	// build blanks and line breaks next to the tokens that are written anyway.
+	var tabBodies, newlineUses []string
+	ast.Inspect(fmGo.f, func(n ast.Node) bool {
+		switch x := n.(type) {
+		case *ast.IfStmt:
+			c := renderExpr(fmGo, x.Cond)
+			if c == "f.tab > 0" || c == "pretty > 0" {
+				tabBodies = append(tabBodies, c02StripComments(renderStmt(fmGo, x.Body)))
+				if x.Else != nil {
+					tabBodies = append(tabBodies, "else "+renderStmt(fmGo, x.Else))
+				}
+			}
+		case *ast.AssignStmt, *ast.ExprStmt:
+			r := renderNode(fmGo, x)
+			if strings.Contains(r, "newline") && !strings.Contains(r, "{") {
+				newlineUses = append(newlineUses, r)
+			}
+		}
+		return true
+	})
+	sort.Strings(newlineUses)
+	newlineUses = c02Uniq(newlineUses)
+	sort.Strings(tabBodies)
+	tabBodies = c02Uniq(tabBodies)
+	fmt.Fprintf(&b, "def prettyGuardedBodies : List String := %s\n", leanStrList(tabBodies))
+	fmt.Fprintf(&b, "def newlineUses : List String := %s\n", leanStrList(newlineUses))
+	fd, err = fmGo.funcDecl("Formatter", "indent")
+	if err != nil {
+		return "", err
+	}
+	var ib []string
+	for _, st := range fd.Body.List {
+		ib = append(ib, renderStmt(fmGo, st))
+	}
+	fmt.Fprintf(&b, "def indentBody : List String := %s\n", leanStrList(ib))
+
 	// escape.go: the safe set and the short escapes of QuotedString
 	esGo, err := parseFile(repo, "zson/escape.go")
 	if err != nil {
@@ -580,4 +619,14 @@ func c02StripComments(s string) string {
 		}
 		s = s[:loc[0]] + s[loc[2]:]
 	}
+}
+
+func c02Uniq(xs []string) []string {
+	var out []string
+	for i, x := range xs {
+		if i == 0 || x != xs[i-1] {
+			out = append(out, x)
+		}
+	}
+	return out
 }
